@@ -43,10 +43,10 @@ func here(skip int) (string, int) {
 	return lastTwo(file), line
 }
 
-const NumForms = 6
+const NumForms = 8
 
 // FormTakesAttrs reports whether the entry point of this form accepts attributes (the printf-style ones do not).
-func FormTakesAttrs(form int) bool { return form%NumForms < 4 }
+func FormTakesAttrs(form int) bool { f := form % NumForms; return f < 4 || f >= 6 }
 
 // Emit logs one record through one of the Logger's entry points and returns the source position
 // (last two path elements of the file, line) of the logging call.
@@ -68,6 +68,9 @@ func Emit(l *logger.Logger, form int, level slog.Level, msg string, nodes []Node
 		file, line = here(1)
 		l.LogAttrs(ctx, level, msg, attrs...)
 		return file, line + 1
+	case 6, 7:
+		// a call site with an awkward recorded file name (see emit_line.go); which one depends on the message
+		return emitOddSource(l, len(msg)+len(nodes)+form, level, msg, Attrs(nodes))
 	case 4:
 		// printf-style entry point: the message goes through a %s verb, attributes cannot be passed
 		file, line = here(1)
